@@ -16,6 +16,19 @@ class Unrecognised(AnalysisError):
     pass
 
 
+def expand_quantifier(test):
+    """any(P(x) for x in (a, b, c)) -> P(a) or P(b) or P(c); all(...) -> and.  None if not of that form."""
+    if isinstance(test, ast.Call) and isinstance(test.func, ast.Name) and test.func.id in ("any", "all") and len(test.args) == 1 and not test.keywords:
+        g = test.args[0]
+        if isinstance(g, (ast.GeneratorExp, ast.ListComp)) and len(g.generators) == 1 and not g.generators[0].ifs \
+                and isinstance(g.generators[0].target, ast.Name) and isinstance(g.generators[0].iter, (ast.Tuple, ast.List)) and g.generators[0].iter.elts:
+            from .normalise import Subst
+            var = g.generators[0].target.id
+            vals = [Subst({var: e}).visit(__import__("snt_static.normalise", fromlist=["clone"]).clone(g.elt)) for e in g.generators[0].iter.elts]
+            return ast.BoolOp(op=ast.Or() if test.func.id == "any" else ast.And(), values=vals)
+    return None
+
+
 def truth(test, h):
     if isinstance(test, ast.BoolOp):
         if isinstance(test.op, ast.And):
@@ -31,6 +44,9 @@ def truth(test, h):
         return not truth(test.operand, h)
     if isinstance(test, ast.Constant):
         return bool(test.value)
+    ex = expand_quantifier(test)
+    if ex is not None:
+        return truth(ex, h)
     r = h.test(test)
     if r is None:
         raise Unrecognised(f"condition not interpretable: {norm(test)}")
